@@ -7,12 +7,24 @@
 //! literals by kind:  Li int · Lf float · Lc char · Lb byte · Ls str · LB byte str · LC c str ·
 //! Lr raw str · LR raw byte str · Lq raw c str.   Whitespace is dropped; non-doc comments are kept only
 //! when `keep_comments`.
+//!
+//! `rustc_lexer` yields one token per punctuation character, so `a & &b` and `a && b` (and `a | |x| x`,
+//! `a || x`) would be the same list.  The one place where that loses a parse decision the formatter could
+//! get wrong is an `&&` / `||` in INFIX position: there two adjacent characters are one operator and two
+//! separated ones are a binary operator followed by a borrow / closure.  So `&&` and `||` written without
+//! anything between the two characters, directly after a token that ends an operand (identifier that is not
+//! an expression keyword, literal, lifetime-free closer `)` `]` `}`, `?`), are sent as ONE token `p:&&` /
+//! `p:||`; everywhere else (prefix position: `&&x`, `&&T`, `|| body`) the characters stay separate, because
+//! the formatter may legitimately join or split them there.
 use crate::util::*;
 
 pub fn encode_tokens(src: &str, keep_comments: bool) -> String {
     use rustc_lexer::{LiteralKind as LK, TokenKind as K};
     let mut items: Vec<String> = vec![];
     let mut pos = 0usize;
+    // (class, text, position just after the token) of the last token sent, for the gluing of infix `&&` / `||`
+    let mut last: Option<(String, String, usize)> = None;
+    let mut before_last_ends_operand = false;
     if let Some(n) = rustc_lexer::strip_shebang(src) {
         items.push(format!("u:{}", enc_str(&src[..n])));
         pos = n;
@@ -47,7 +59,35 @@ pub fn encode_tokens(src: &str, keep_comments: bool) -> String {
             K::Unknown | K::UnknownPrefix | K::UnknownPrefixLifetime | K::GuardedStrPrefix => "u".into(),
             _ => "p".into(),
         };
+        // glue the second character of an infix `&&` / `||` onto the first
+        if class == "p" && (text == "&" || text == "|") {
+            if let Some((lc, lt, lend)) = &last {
+                if lc == "p" && lt == text && *lend == pos - len && before_last_ends_operand {
+                    items.pop();
+                    items.push(format!("p:{}", enc_str(&format!("{}{}", text, text))));
+                    last = Some(("p".into(), format!("{}{}", text, text), pos));
+                    before_last_ends_operand = false;
+                    continue;
+                }
+            }
+        }
+        before_last_ends_operand = match &last {
+            Some((lc, lt, _)) => ends_operand(lc, lt),
+            None => false,
+        };
+        last = Some((class.clone(), text.to_string(), pos));
         items.push(format!("{}:{}", class, enc_str(text)));
     }
     if items.is_empty() { "_".into() } else { items.join(",") }
+}
+
+/// a token after which a binary operator can follow (it ends an operand)
+fn ends_operand(class: &str, text: &str) -> bool {
+    match class {
+        "i" => !matches!(text, "as" | "in" | "return" | "break" | "continue" | "yield" | "match" | "if" | "while" | "for" | "loop" | "let" | "mut" | "ref" | "else" | "move" | "static" | "async" | "unsafe" | "const" | "dyn" | "impl" | "where" | "box" | "become" | "do" | "use"),
+        "r" | "Li" | "Lf" | "Lc" | "Lb" | "Ls" | "LB" | "LC" | "Lr" | "LR" | "Lq" => true,
+        "c" => true,
+        "p" => text == "?",
+        _ => false,
+    }
 }
